@@ -216,8 +216,43 @@ func TestProp_HostileInputs(t *testing.T) {
 			e = newEnv(t)
 		}
 		e.used++
-		kind := rapid.SampledFrom([]string{"alpn-list", "alpn-list", "alpn-list", "mutated-request", "hostile-rewrapped-blob", "hostile-wrapped-blob", "raw-bytes", "oversized-request", "client-alert", "tcp-reset", "hostile-field-values", "hostile-field-values"}).Draw(t, "inputKind")
+		kind := rapid.SampledFrom([]string{"alpn-list", "alpn-list", "alpn-list", "mutated-request", "hostile-rewrapped-blob", "hostile-wrapped-blob", "raw-bytes", "oversized-request", "client-alert", "tcp-reset", "hostile-field-values", "hostile-field-values", "reset-after-flight", "reset-after-flight"}).Draw(t, "inputKind")
 		switch kind {
+		case "reset-after-flight":
+			// a peer that sends k complete TLS flights and resets the TCP connection
+			// right behind the last one: behind its Finished (k = 2) the handshake
+			// completes on the server, whose own writes (a close_notify for a fetch
+			// handshake, anything for the others) then hit a dead connection
+			k := rapid.IntRange(1, 3).Draw(t, "flightsBeforeReset")
+			who := rapid.SampledFrom([]string{"fetch-unknown-key", "fetch-unknown-key", "fetch-registered-key", "authentication", "base-tls"}).Draw(t, "client")
+			cli := &vkit.AdvClient{ResetAfterWrites: k}
+			switch who {
+			case "fetch-unknown-key", "fetch-registered-key":
+				a := vkit.NewActor("resetter")
+				if who == "fetch-registered-key" {
+					if _, err := e.w.Authorize(a); err != nil {
+						t.Fatalf("authorize: %v", err)
+					}
+				}
+				self := vkit.MintLeaf(nil, vkit.LeafSpec{Pub: a.CertPub, SKI: a.CertPkix, NB: time.Now().Add(-time.Minute), NA: time.Now().Add(time.Minute), SelfSign: a.CertPriv, IsCA: true})
+				cli.NextProtos, cli.Chain, cli.Key = vkit.FetchProtos(a.Request()), [][]byte{self}, a.CertPriv
+			case "authentication":
+				nonce := rnd(32)
+				req := &types.GenerateServerCertificatesRequest{CertificatePublicKeyPkix: e.node.CertPkix, Nonce: nonce, NonceSignature: ed25519.Sign(e.node.CertPriv, nonce)}
+				b := e.node.Creds.CertificateBundles[0]
+				cli.NextProtos, cli.Chain, cli.Key = vkit.AuthProtos(req, nil), [][]byte{b.CertificateDer, b.CaCertificateDer}, e.node.CertPriv
+			default:
+				cli.NextProtos = []string{"h2"}
+			}
+			r := cli.Handshake(e.rig.Addr)
+			if r.Conn != nil {
+				_ = r.Conn.Close()
+			}
+			desc := func() any { return map[string]any{"client": who, "flights_before_reset": k} }
+			rec.Case("reset-after-flight/"+who, fmt.Sprint(who, k, e.used), true, desc)
+			// an authenticated client that resets behind its Finished may have been
+			// returned as a connection before the reset was noticed: that is fine
+			e.judge(t, "reset-after-flight", desc, who == "authentication" || who == "base-tls")
 		case "hostile-field-values":
 			// a request that is well formed down to the protobuf level (so it gets
 			// past chunking, base64 and unmarshaling, and - for a fetch - is properly
